@@ -42,7 +42,7 @@ func c01Menu() []vEntry {
 
 func c01Requests() []vReq {
 	var rs []vReq
-	for _, host := range []string{"a.com", "a.com:8080", "b.com", "[::1]:80"} {
+	for _, host := range []string{"a.com", "a.com:8080", "b.com", "[::1]:80", "A.com"} {
 		for _, path := range []string{"/a", "/a/b", "/ab", "/c"} {
 			for _, m := range []string{"GET", "POST"} {
 				for _, x := range []string{"", "1", "2"} {
@@ -63,7 +63,7 @@ func c01Requests() []vReq {
 	return rs
 }
 
-var c01Hosts = []vRule{{}, {Host: "a.com"}, {HostRegexp: `^a\.com$`}}
+var c01Hosts = []vRule{{}, {Host: "a.com"}, {HostRegexp: `^a\.com$`}, {Host: "b.com", HostRegexp: `^a\.`}}
 
 func TestVerifC01(t *testing.T) {
 	env := mc.GetEnv()
